@@ -360,6 +360,7 @@ def check_C05(tier):
         rep.case(("graph", s_), nontrivial=True)
     judge_roundtrips(rep, "small_graphs", gsm, "default", True, own)
     judge_roundtrips(rep, "small_graphs_lax", gsm[::3], "default", False, own)
+    kek_refinement(rep, quick)
     matching_machine(rep, quick, (many[:: (4 if quick else 1)] + gsm + cages)[: (2500 if quick else 40000)])
     corpus_trace(rep, "aromatic", quick, own, [relaxed_table()], per_file=(40 if quick else 600),
                  variants=(3 if quick else 6), flt=is_aromatic_smiles, extra=cages)
@@ -369,6 +370,31 @@ def check_C05(tier):
     rep.assumptions += ["the pi-bond rule (Encoder!PiClass) decides the standard aromatic kinds; hypervalent, radical "
                         "and exotic centres are 'unspec': either reading is accepted there"]
     return rep.finish()
+
+
+def kek_refinement(rep, quick):
+    """Refinement inside the specification family (spec/KekRefine.tla): the matching ALGORITHM (module Matching),
+    run on the subgraph the implementation hands it, implements the encoder machine's Kekule CONTRACT
+    (Encoder!KekChoices) in every state in which the encoder machine is about to kekulise - checked by TLC over all
+    aromatic token strings of the configuration; two probes guard against vacuity."""
+    ring_alpha = ["c", "n", "1", "2", "(", ")", "o", "[nH]", "c"]
+    for nm, alpha, ml in (("rings", ring_alpha, 7 if quick else 8), ("aro", ENC["aro"], 4 if quick else 5)):
+        results, _ = de.run_decoder_tlc("kekref_" + nm, alpha, "default", ml, spec="EncSpec", extends="KekRefine",
+                                        invariants=["KekRefinesMatching"], fastjit=quick)
+        st = sum(r.distinct for r in results)
+        rep.states += st
+        rep.transitions += sum(r.generated for r in results)
+        rep.configs.append({"config": "KekRefinesMatching over " + nm, "alphabet": alpha, "max_tokens": ml, "distinct_states": st})
+        for r in results:
+            if r.violated:
+                rep.violation("specification-level: the matching algorithm does not implement the Kekule contract (%s)" % r.violated,
+                              {"errors": r.errors[:2]})
+    for probe in ("ProbeNeverMatchesRing", "ProbeNeverFails"):
+        results, _ = de.run_decoder_tlc("kekprobe", ring_alpha, "default", 6, spec="EncSpec", extends="KekRefine",
+                                        invariants=[probe], fastjit=True)
+        if not any(probe in r.violated for r in results):
+            raise MachineryError("vacuity guard: %s was not violated - the refinement check never saw such a state" % probe)
+    rep.notes["kekule_refinement"] = "Matching (algorithm) implements Encoder!KekChoices (contract) in every enumerated Kek state; probes violated as required"
 
 
 def matching_machine(rep, quick, smiles_for_trace):
